@@ -4,7 +4,7 @@
      annot <ast>            -> the AST with every lambda's fv recomputed by the model
      code <ast>             -> compile_toplevel: (code (NAME operand..) ..)
      wf <ast>               -> 1 | 0
-     restflags <ast>        -> ((id rest? unused?) ..) per lambda in preorder, by the model's rest_unused
+     restflags <ast>        -> ((id rest? unused?) ..) per lambda in preorder, by the model's rest_unused_p (set-vars first, then usedp)
      sem <fuel> <ast>..     -> V <value> | E <class> | OUT      (SPEC interpreter, whole program)
      vm <fuel> <ast>..      -> V <value> | E <class> | OUT      (model compiler + model VM)
      tail <ast>             -> C05: list of (tail? nargs) per general application, code order (spec side)
@@ -153,17 +153,17 @@ and pr_stail v =
 let asts_of_fields fields = List.map ast_of (parse_all (tokenize (String.concat " " fields)))
 let one fields = match asts_of_fields fields with [a] -> a | _ -> failwith "expected one ast"
 
-(* (id rest? unused?) of every lambda, preorder: the model's [rest_unused] (the function of theorem
-   rest_unused_sound) on the same tree the harness asked the real sexp_rest_unused_p about *)
+(* (id rest? unused?) of every lambda, preorder: the model's [rest_unused_p] (the function of theorems
+   rest_unused_sound_with_set_vars / unused_rest_prologue_never_boxes_rest_slot) on the same tree the harness asked the real sexp_rest_unused_p about *)
 let rec rest_flags (e : ast) : string list =
   match e with
   | Lit _ | Ref _ -> []
   | SetV (_, _, v) -> rest_flags v
   | Cnd (t, p, f) -> rest_flags t @ rest_flags p @ rest_flags f
   | Seq es -> List.concat_map rest_flags es
-  | Lam (id, _, r, _, _, _, b) ->
+  | Lam (id, _, r, _, sv, _, b) ->
       ("(" ^ si id ^ " " ^ (match r with None -> "0" | Some _ -> "1") ^ " "
-       ^ (if rest_unused true id r b then "1" else "0") ^ ")") :: rest_flags b
+       ^ (if rest_unused_p true id r sv b then "1" else "0") ^ ")") :: rest_flags b
   | App (f, args) -> rest_flags f @ List.concat_map rest_flags args
   | OpApp (_, args) -> List.concat_map rest_flags args
 
